@@ -193,6 +193,9 @@ def wl_cli(root, rng, fail=False, out="out.bin"):
     open(os.path.join(root, "out.tmp"), "w").write("neighbour")
     os.mkdir(os.path.join(root, "sub"))
     open(os.path.join(root, "sub", "e.ve"), "w").write("another neighbour")
+    # evidence is usually kept read-only: whatever the tool does to its output's permissions must not reach its inputs
+    os.chmod(os.path.join(root, "e.ve"), 0o400)
+    os.chmod(os.path.join(root, "e.info"), 0o440)
 
     def go():
         argv = sys.argv
@@ -217,17 +220,36 @@ def wl_hdd_backup_only(root, rng):
     return lambda: HDD(Path(d)).open().read(16384)
 
 
+def _leave_siblings(path):
+    """What is left of a file that was moved away: a compressed copy, a backup copy, an editor's copy next to where it was."""
+    import gzip
+    data = open(path, "rb").read()
+    with open(path + ".gz", "wb") as f:
+        f.write(gzip.compress(data))
+    for suffix in (".bak", "~", ".orig"):
+        with open(path + suffix, "wb") as f:
+            f.write(data)
+    os.remove(path)
+
+
 def wl_vmdk_missing_extent(root, rng):
     from dissect.hypervisor.disk.vmdk import VMDK
     go = wl_vmdk(root, rng)
-    os.remove(os.path.join(root, "delta-e2.vmdk"))
-    os.remove(os.path.join(root, "base-e0.vmdk"))
+    _leave_siblings(os.path.join(root, "delta-e2.vmdk"))
+    _leave_siblings(os.path.join(root, "base-e0.vmdk"))
+    return go
+
+
+def wl_vmdk_missing_parent(root, rng):
+    go = wl_vmdk(root, rng)
+    _leave_siblings(os.path.join(root, "base.vmdk"))
     return go
 
 
 def wl_vhdx_missing_parent(root, rng):
     go = wl_vhdx(root, rng)
-    os.rename(os.path.join(root, "base.vhdx"), os.path.join(root, "base.vhdx.moved"))
+    shutil.copy(os.path.join(root, "base.vhdx"), os.path.join(root, "base.vhdx.moved"))
+    _leave_siblings(os.path.join(root, "base.vhdx"))
     return go
 
 
@@ -387,8 +409,11 @@ def handle_workloads(rng):
     def vt(h):
         from dissect.hypervisor.util import vmtar
         t = vmtar.open(fileobj=h)
-        for m in t.getmembers():
-            t.extractfile(m).read()
+        try:
+            for m in t.getmembers():
+                t.extractfile(m).read()
+        finally:
+            t.close()
     out.append(("vmtar", vt, tb))
     import gzip
     tgz = gzip.compress(tb)
@@ -401,8 +426,11 @@ def handle_workloads(rng):
                 t = opener()
             except Exception:  # noqa: BLE001   (the plain class does not inflate: a refusal is fine, a write is not)
                 continue
-            for m in t.getmembers():
-                t.extractfile(m).read()
+            try:
+                for m in t.getmembers():
+                    t.extractfile(m).read()
+            finally:
+                t.close()
     out.append(("vmtar-gzip-both-entry-points", vtc, tgz))
     out.append(("vmtar-both-entry-points", vtc, tb))
     return out
@@ -423,7 +451,7 @@ def damaged_handles(ctx, rng):
         extra.append(("hds", bytes(b)))
     wl = handle_workloads(rng)
     byname = {n: fn for n, fn, _ in wl}
-    cases = [(n, fn, blob, None) for n, fn, blob in wl if not n.startswith(("envelope", "vmtar-gzip"))] + [(n, byname[n], blob, "as-is") for n, blob in extra]
+    cases = [(n, fn, blob, None) for n, fn, blob in wl if not n.startswith("envelope")] + [(n, byname[n], blob, "as-is") for n, blob in extra]
     root = tempfile.mkdtemp(prefix="verif-c09d-")
     try:
         for name, fn, blob, how in cases:
@@ -434,6 +462,8 @@ def damaged_handles(ctx, rng):
                     o = off + rng.choice([0, 8, 64, 128])
                     variants.append(blob[:o] + p + blob[o + len(p):])
                 variants.append(blob[:len(blob) * 3 // 5])
+                variants.append(b"")                # an empty file
+                variants.append(blob[:512])
             changed, evs_all = False, []
             for k, data in enumerate(variants):
                 pth = os.path.join(root, f"evidence-{k}.bin")
@@ -547,7 +577,7 @@ def run(ctx):
                             ("cli-out-is-subdir", lambda r, g: wl_cli(r, g, False, "sub"), "cli-sub"),
                             ("cli-out-in-new-dir", lambda r, g: wl_cli(r, g, False, "nonexistent/out.bin"), "cli-new"),
                             ("hdd-backup-descriptor-only", wl_hdd_backup_only, "lib-mayraise"), ("vmdk-missing-extent", wl_vmdk_missing_extent, "lib-mayraise"),
-                            ("vhdx-missing-parent", wl_vhdx_missing_parent, "lib-mayraise"), ("vmdk-tempfile-descriptor", wl_vmdk_tempfile_descriptor, "lib")):
+                            ("vhdx-missing-parent", wl_vhdx_missing_parent, "lib-mayraise"), ("vmdk-missing-parent", wl_vmdk_missing_parent, "lib-mayraise"), ("vmdk-tempfile-descriptor", wl_vmdk_tempfile_descriptor, "lib")):
         root = tempfile.mkdtemp(prefix="verif-c09-")
         out_rel = {"cli": "out.bin", "cli-dir": ".", "cli-sub": "sub", "cli-new": "nonexistent/out.bin"}.get(phase)
         may_raise = phase.endswith("-mayraise")
